@@ -136,7 +136,12 @@ impl CountVectorizerValidParams {
     ) -> HashMap<String, (usize, usize)> {
         let (min_df, max_df) = self.document_frequency();
         let len_f32 = n_documents as f32;
-        let (min_abs_df, max_abs_df) = ((min_df * len_f32) as usize, (max_df * len_f32) as usize);
+        // an entry must reach the minimum relative frequency: round the lower count bound up
+        // (truncating it admitted entries below `min_df`, e.g. df = 1 of 3 documents for 0.5)
+        let (min_abs_df, max_abs_df) = (
+            (min_df * len_f32).ceil() as usize,
+            (max_df * len_f32) as usize,
+        );
 
         let vocabulary = if min_abs_df == 0 && max_abs_df == n_documents {
             match &self.stopwords() {
